@@ -10,6 +10,7 @@ import (
 	"github.com/rqlite/rqlite/v10/command/chunking"
 	"github.com/rqlite/rqlite/v10/command/proto"
 	sql "github.com/rqlite/rqlite/v10/db"
+	"github.com/rqlite/rqlite/v10/internal/vhook"
 )
 
 // ExecuteQueryResponses is a slice of ExecuteQueryResponse, which detects mutations.
@@ -88,11 +89,13 @@ func (c *CommandProcessor) Process(data []byte, db *sql.SwappableDB) (*proto.Com
 			return cmd, false, &fsmGenericResponse{error: fmt.Errorf("failed to write to temporary database file: %s", err)}
 		}
 		fd.Close()
+		vhook.Point("load.after_temp_write")
 
 		// Swap the underlying database to the new one.
 		if err := db.Swap(fd.Name(), db.FKEnabled(), db.WALEnabled()); err != nil {
 			return cmd, false, &fsmGenericResponse{error: fmt.Errorf("error swapping databases: %s", err)}
 		}
+		vhook.Point("load.after_swap")
 		return cmd, true, &fsmGenericResponse{}
 	case proto.Command_COMMAND_TYPE_LOAD_CHUNK:
 		var lcr proto.LoadChunkRequest
